@@ -39,6 +39,37 @@ Theorem C14_exports_loader : forall (t : type_opts) (d : doc) (B B' : list defbo
 Proof. exact exports_loader_t. Qed.
 Print Assumptions C14_exports_loader.
 
+(** Runtime reading: a JS module with two declarations of one name does not load and exports
+    nothing.  If no two definitions get the same variable name, every declared value export exists
+    at runtime in the module the loader prints. *)
+Theorem C14_runtime_exports_partial : forall (t : type_opts) (d : doc) (B B' : list defbody),
+  bodies_ok B = true -> bodies_ok B' = true -> names_ok t d = true ->
+  length B = length (defs d) -> length B' = length (defs d) ->
+  distinct_vars (t_base t) d = true ->
+  incl (map zero_export (value_exports (scan (dts_ops t d B))))
+       (runtime_exports (scan (js_ops (t_base t) (loader_view d) B')))
+  /\ default_names (scan (dts_ops t d B)) = default_names (scan (js_ops (t_base t) (loader_view d) B')).
+Proof. exact runtime_exports_loader_t. Qed.
+Print Assumptions C14_runtime_exports_partial.
+
+(** the guard is exactly the loadability of the module *)
+Theorem C14_loadable_iff_distinct : forall (o : base_opts) (d : doc) (B : list defbody),
+  bodies_ok B = true -> length B = length (defs d) ->
+  loadable (scan (js_ops o d B)) = distinct_vars o d.
+Proof. exact loadable_js. Qed.
+Print Assumptions C14_loadable_iff_distinct.
+
+(** KNOWN FINDING (class colliding-variable-names): without the guard the statement is false for
+    the current code — operation [Foo] and fragment [FooQuery] under the default configuration. *)
+Theorem C14_runtime_exports_refuted : exists c d B,
+  doc_valid_names d = true /\
+  bodies_ok B = true /\ names_ok (type_from_config (parse_config c)) d = true
+  /\ length B = length (defs d)
+  /\ ~ incl (map zero_export (value_exports (scan (dts_of_config c d B))))
+           (runtime_exports (scan (js_of_config c (loader_view d) B))).
+Proof. exact runtime_exports_refuted. Qed.
+Print Assumptions C14_runtime_exports_refuted.
+
 (** From one configuration text, through parse_config and the three from_config functions. *)
 Theorem C14_exports_config : forall (c : cfg_text) (d : doc) (B B' : list defbody),
   bodies_ok B = true -> bodies_ok B' = true ->
